@@ -166,6 +166,7 @@ type Sym struct {
 	Body  []*PathOut // loop: outcomes of one abstract iteration
 	Key   string     // loop: key of the ranged collection / bound
 	ID    int        // symbol id of the value this op produced (reads)
+	T     types.Type // static type of the value a read op produced (nil if unknown)
 	Extra string
 }
 
